@@ -84,7 +84,7 @@ func idString(id rID, prefix string) (string, bool) {
 		return "", true
 	}
 
-	s := prefix + strings.Repeat("a", 60)
+	s := prefix + strings.Repeat("a", 400)
 	s = s[:id.Len]
 
 	// (kelvin sign and long s: what a case-insensitive [a-z] matches by Unicode case folding; a line feed at
@@ -320,10 +320,17 @@ func rulePatchJSON(c *rCase) (interface{}, string) {
 				dup.Type, dup.Material = "Ed25519VerificationKey2018", "b58"
 			}
 
-			if ruleVariant == 2 {
-				list = append([]interface{}{keyRecordJSON(&dup, "k")}, list...)
-			} else {
+			// (a third, unrelated key stands between the two in every other variant: the two need not be neighbours)
+			between := baseKeyRec
+			between.ID = rID{true, 7, "ok"}
+
+			switch ruleVariant {
+			case 2:
+				list = append([]interface{}{keyRecordJSON(&dup, "k"), keyRecordJSON(&between, "k")}, list...)
+			case 1:
 				list = append(list, keyRecordJSON(&dup, "k"))
+			default:
+				list = append(list, keyRecordJSON(&between, "k"), keyRecordJSON(&dup, "k"))
 			}
 		}
 
@@ -342,7 +349,15 @@ func rulePatchJSON(c *rCase) (interface{}, string) {
 		if c.Dup {
 			dup := baseSvcRec
 			dup.ID = c.S.ID
-			list = append(list, svcRecordJSON(&dup, "s"))
+
+			between := baseSvcRec
+			between.ID = rID{true, 7, "ok"}
+
+			if ruleVariant == 1 {
+				list = append(list, svcRecordJSON(&dup, "s"))
+			} else {
+				list = append(list, svcRecordJSON(&between, "s"), svcRecordJSON(&dup, "s"))
+			}
 		}
 
 		if c.Wrap == "replace" {
@@ -528,8 +543,11 @@ func evalRule(c *rCase) (valid bool, panicked string, raw []byte) {
 	if (c.Kind == "key" || c.Kind == "svc") && (c.Dup || c.Wrap == "replace") {
 		for ruleVariant = 1; ruleVariant <= 2; ruleVariant++ {
 			if v2, p2, r2 := evalRuleVariant(c); v2 != valid || p2 != panicked {
+				// (all forms of a case have the case's verdict: one of the two is wrong, whichever the case's verdict is)
+				msg := fmt.Sprintf("forms-differ: form 0 valid=%v %s / form %d valid=%v %s: %s", valid, panicked, ruleVariant, v2, p2, raw)
 				ruleVariant = 0
-				return v2, p2, r2
+
+				return v2, msg, r2
 			}
 		}
 	}
@@ -589,7 +607,7 @@ func randomID(r *rand.Rand) rID {
 	case r.Float64() < 0.3:
 		return rID{false, 0, "ok"}
 	case r.Float64() < 0.5:
-		return rID{true, []int{0, 51}[r.Intn(2)], "ok"}
+		return rID{true, []int{0, 51, 256, 306}[r.Intn(4)], "ok"}
 	default:
 		return rID{true, []int{1, 50}[r.Intn(2)], []string{"space", "dot", "nonascii", "slash", "kelvin", "longs", "linefeed", "hash_first", "space_last"}[r.Intn(9)]}
 	}
@@ -709,6 +727,9 @@ func rulesReplay(args []string) {
 		cs := map[string]interface{}{"case": l.C, "mutated": l.Muts}
 
 		switch {
+		case strings.HasPrefix(panicked, "forms-differ"):
+			col.report(mismatch{Kind: "verdict", Key: ruleKey(&l) + ":forms", Case: cs, Detail: panicked,
+				Expected: map[string]interface{}{"valid": l.Valid}, Concrete: string(raw), Replay: rp})
 		case panicked != "":
 			col.report(mismatch{Kind: "panic", Key: "panic:" + ruleKey(&l), Case: cs, Detail: panicked, Concrete: string(raw), Replay: rp})
 		case valid != l.Valid:
